@@ -757,6 +757,10 @@ class IMAPClientCommand:
                 self.mailbox_name = self._p_mailbox()
                 self._p_simple_string(" ")
                 self.status_att_list = self._p_paren_list_of(self._p_status_att)
+                if not self.status_att_list:
+                    raise BadSyntax(
+                        value="STATUS requires at least one status attribute"
+                    )
             case IMAPCommand.ID:
                 self._p_id()
             case IMAPCommand.APPEND:
@@ -1022,6 +1026,8 @@ class IMAPClientCommand:
             self.list_patterns = self._p_paren_list_of(
                 self._p_list_mailbox_pattern
             )
+            if not self.list_patterns:
+                raise BadSyntax(value="the list of mailbox patterns is empty")
         else:
             self.list_mailbox = self._p_list_mailbox()
 
